@@ -71,7 +71,7 @@ def pop(op):
         return f"  M#{op[1]}.{op[2]}.disconnect({op[3]!r})"
     if k == "repl":
         return f"  M#{op[1]}.{op[2]}.replace({op[3]!r}, {px(op[4])})"
-    if k == "readd":
+    if k == "readd" and len(op) == 4:
         return f"  M#{op[1]}.{op[2]} = M#{op[1]}.{op[2]}  [again: {op[3]}]"
     return "> " + " ".join(str(a) for a in op)
 
